@@ -52,7 +52,7 @@ def make_twin(mod, fn, twin_dir: str):
         f"    _m.{fn.__name__}({args})\n"
         "    return True\n"
     )
-    path = os.path.join(twin_dir, f"twin_{mod.__name__}_{fn.__name__}.py")
+    path = os.path.join(twin_dir, f"twin_{mod.__name__}_{fn.__name__}_{os.getpid()}.py")
     with open(path, "w") as f:
         f.write(src)
     tm = load_module(path)
@@ -76,6 +76,21 @@ def analyse(fn, timeout: float, report_all: bool = True):
     from crosshair.core import analyze_function, run_checkables
     from crosshair.core_and_libs import standalone_statespace  # noqa: F401 (loads plugins)
     from crosshair.options import AnalysisOptionSet
+    import crosshair.core as _xc
+
+    if not getattr(_xc.consider_shortcircuit, "_verif", False):
+        # CrossHair may *skip* a call to a contract-bearing function (its own `_hash` stand-in for the builtin
+        # `hash` has one) and continue with an unconstrained symbolic result.  Real code that hashes dataclass
+        # keys then behaves nondeterministically.  We never want that abstraction: always call into the body.
+        _orig_cs = _xc.consider_shortcircuit
+
+        def _never(fn, sig, bound, subconditions, allow_interpretation):
+            if allow_interpretation:
+                return None
+            return _orig_cs(fn, sig, bound, subconditions, allow_interpretation)
+
+        _never._verif = True  # type: ignore[attr-defined]
+        _xc.consider_shortcircuit = _never
 
     stats: collections.Counter = collections.Counter()
     opts = AnalysisOptionSet(
@@ -154,8 +169,12 @@ def main() -> int:
         rec["solver_wall_s"] = round(wall, 2)
         cx = [m for m in msgs if m["state"] in ("POST_FAIL", "EXEC_ERR", "POST_ERR")]
         rec["counterexamples"] = [
-            {"call": m["call"], "message": m["message"]} for m in cx
+            {"call": m["call"], "message": m["message"]} for m in cx if m["call"]
         ]
+        if rec["verdict"] == "counterexample" and not rec["counterexamples"]:
+            # e.g. CrossHair's own NotDeterministic report: no input attached, nothing to replay -> inconclusive
+            rec["verdict"] = "not_confirmed"
+            rec["note"] = "; ".join(m["message"][:200] for m in cx)
     except BaseException as e:  # noqa: BLE001
         rec["verdict"] = "error"
         rec["error"] = "".join(traceback.format_exception(type(e), e, e.__traceback__))[-4000:]
